@@ -837,10 +837,53 @@ def d1s_set_members(chk: Check, funcs: List[FuncInfo]) -> None:
                                  src(c.args[0]), src(c.args[2]), member))
 
 
+def d1i_index_text_is_the_parsed_index(chk: Check,
+                                       funcs: List[FuncInfo]) -> None:
+    """A reported path names a list element as `[N]` with N the integer
+    position that is also the parentref.  Writing the *segment text* there
+    (`[01]`, `[+1]`) still parses, but it is not the canonical spelling:
+    `YAMLPath.pop()` -- which `[parent()]` climbs with -- cuts the canonical
+    rendering off the end of the text, finds nothing to cut, and the result
+    keeps a descendant's path for the ancestor's node."""
+    from sa.kinds import Kinds, INT
+    chk.rule("C02-D1i", "every `\"[{}]\".format(x)` / `\"[{}:{}]\"` path "
+             "piece of the evaluator is filled with integers (parsed "
+             "indexes, enumeration counters), never with segment text",
+             floor=15)
+    n = 0
+    for fi in funcs:
+        kinds = None
+        for c in walk_local(fi.node):
+            if not (isinstance(c, ast.Call) and
+                    isinstance(c.func, ast.Attribute) and
+                    c.func.attr == "format" and
+                    isinstance(c.func.value, ast.Constant) and
+                    isinstance(c.func.value.value, str) and
+                    c.func.value.value.startswith("[{}")):
+                continue
+            kinds = kinds or Kinds(chk.prog, fi)
+            n += 1
+            text = "{}: {}".format(fi.short, src(c)[:50])
+            bad = [a for a in c.args if kinds.kind(a) != INT]
+            if bad:
+                chk.fail("C02-D1i", fi, c, text,
+                         "`{}` is not known to be an integer (it is {}): "
+                         "the path text of the result differs from the "
+                         "canonical `[N]`, so pop() / parent() cannot cut "
+                         "the segment off again and the climbed result "
+                         "carries the child's path".format(
+                             src(bad[0]), kinds.kind(bad[0])))
+            else:
+                chk.ok("C02-D1i", fi, c, text, "integer position(s)", False)
+    if n < 15:
+        raise AnalysisError("index path pieces found: {}".format(n))
+
+
 def run(chk: Check) -> None:
     funcs = evaluator_functions(chk.prog)
     d1_sites(chk, funcs)
     d1s_set_members(chk, funcs)
+    d1i_index_text_is_the_parsed_index(chk, funcs)
     d1r_data_not_rebound(chk, funcs)
     d2_calls(chk, funcs)
     d3_immutable(chk, funcs)
